@@ -569,8 +569,10 @@ def cleanup_model(model: Model):
 
     current = {}
     newstats = []
+    dvs = set(model.dependent_variables.keys())
     for s in model.statements:
-        if isinstance(s, Assignment) and s.expression.is_symbol():
+        # NOTE: An alias defining a dependent variable (e.g. Y = F) must stay
+        if isinstance(s, Assignment) and s.expression.is_symbol() and s.symbol not in dvs:
             current[s.symbol] = s.expression.subs(current)
         else:
             n = s.subs(current)
